@@ -530,7 +530,7 @@ func run(r *core.Run, ts bool) int {
 		}
 	}
 	r.Set("cases", len(cases))
-	core.Parallel(len(cases), func(i int) {
+	r.Parallel(len(cases), func(i int) {
 		c := cases[i]
 		// the envelope / revocation routes for a stratified slice
 		execute(r, c, i%r.Pick(9, 4) == 0 || len(c.Items) <= 1 && c.TimeOf < 0)
